@@ -77,7 +77,7 @@ def gen_mm(mode, maxlen=None, depth=None, slots=None):
         ov["MaxDepth"] = depth
     if slots:
         ov["Slots"] = slots
-    return {"module": "Gen_MinMax", "cfg": "Gen_MinMax_%s.cfg" % mode, "overrides": ov, "family": "minmax", "embeddings": "1,1e-30,1e30"}
+    return {"module": "Gen_MinMax", "cfg": "Gen_MinMax_%s.cfg" % mode, "overrides": ov, "family": "minmax", "embeddings": "1,1e-30,1e30,1.7976931348623157e308"}
 
 
 MC_Q = {"module": "MC_Quantile", "cfg": "MC_Quantile.cfg", "overrides": {"MaxLen": ("6", "8")}, "timeout": 7200}
@@ -132,7 +132,7 @@ PROPS = {
         "title": "streaming mean/variance equal the exact statistics",
         "mc": [MC_SEQ],
         "replay": [gen_seq("Mean,Variance", E05)],
-        "direct": [long_job("Mean,Variance", E05)],
+        "direct": [long_job("Mean,Variance", E05, max_n=("100000", "1000000"))],
         "apalache": [{"module": "Ind_Variance", "skip": (True, False)}],
         "rule": "every sequence over the lattice {-3,-1,0,2,3} up to the length bound, fed to Mean and Variance under six exact "
                 "affine embeddings (magnitudes 1e-30..1e30, offsets up to 1e12 spreads); distinct = distinct histories; "
@@ -208,7 +208,7 @@ PROPS = {
         "technique": 'TLC Sentinels invariants + exact replay',
         "title": "empty, one-observation and constant samples follow the documented contract",
         "mc": [MC_W1, MC_C1, MC_SEQ, MC_MERGE],
-        "replay": [gen_q("small", "E0"), gen_mm("hist", depth=("3", "3")), gen_pair("Weighted", "seq", "E0:W0,E5:W2,E10:W0,E10:W1", maxlen=("4", "5")), gen_pair("Covariance", "seq", "E0:E0,E3:E5,E10:E10", maxlen=("4", "5")), gen_seq(ALLM, E05 + ",E10"), gen_hist(ALLM, "E0")],
+        "replay": [gen_q("small", "E0"), gen_mm("hist", depth=("3", "3")), gen_pair("Weighted", "seq", "E0:W0,E5:W2,E10:W0,E10:W1,E0:W3", maxlen=("4", "5")), gen_pair("Covariance", "seq", "E0:E0,E3:E5,E10:E10", maxlen=("4", "5")), gen_seq(ALLM, E05 + ",E10"), gen_hist(ALLM, "E0")],
         "direct": [long_job("Mean,Variance,Skewness,Kurtosis,Moments4,M6,M10", E05 + ",E10", max_n="10000")],
         "rule": "every accessor of every type at n = 0..4 and on every constant sequence in the enumerated set, sentinel class "
                 "or exact value required",
@@ -308,7 +308,7 @@ PROPS = {
         "technique": 'TLC model checking of the small-sample definitions + exhaustive replay of all 340 sequences x p grid',
         "title": "with fewer than five observations Quantile returns the exact sample quantile",
         "mc": [MC_QS],
-        "replay": [gen_q("small", "E0,E3,E5")],
+        "replay": [gen_q("small", "E0,E3,E5,E11")],
         "rule": "all 340 sequences of length 1..4 over {0,1,2,3} (every permutation of every multiset) x 31 values of p (sixteenths, "
                 "thirds, every k/n boundary +- 2^-20) and, in the harness, one ulp either side of every boundary; at boundaries that "
                 "are within rounding either adjacent convention is accepted",
@@ -320,7 +320,7 @@ PROPS = {
         "technique": 'TLC invariants of Quantile.tla + replay + TLC trace validation',
         "title": "quantile estimates stay inside the data range and bookkeeping is exact",
         "mc": [MC_Q, MC_QS],
-        "replay": [gen_q("big", "E0,E3", maxlen=("7", "9")), gen_q("small", "E0")],
+        "replay": [gen_q("big", "E0,E3", maxlen=("7", "9")), gen_q("small", "E0,E11")],
         "trace": [TR_Q],
         "rule": "len/is_empty/p()/NaN-only-when-empty/range/marker order after every observation of every enumerated stream and of "
                 "long recorded streams (validated by TLC as trace invariants); Quantile::new must panic for seven invalid p",
